@@ -164,6 +164,14 @@ pub(super) fn sub2(a: &mut [BigDigit], b: &[BigDigit]) {
     #[cfg(not(any(target_arch = "x86", target_arch = "x86_64")))]
     let (b, done) = (false, 0);
 
+    #[cfg(num_bigint_verif)]
+    crate::verif_probe::add(crate::verif_probe::Probe::SUB_ASM_BLOCKS, (done / 5) as u64);
+    #[cfg(num_bigint_verif)]
+    if b {
+        crate::verif_probe::hit(crate::verif_probe::Probe::SUB_BORROW_AFTER_ASM);
+    }
+    #[cfg(num_bigint_verif)]
+    crate::verif_probe::add(crate::verif_probe::Probe::SUB_TAIL, (len - done) as u64);
     let mut borrow = b as u8;
 
     for (a, b) in a_lo[done..].iter_mut().zip(b_lo[done..].iter()) {
@@ -173,6 +181,8 @@ pub(super) fn sub2(a: &mut [BigDigit], b: &[BigDigit]) {
     if borrow != 0 {
         for a in a_hi {
             borrow = sbb(borrow, *a, 0, a);
+            #[cfg(num_bigint_verif)]
+            crate::verif_probe::hit(crate::verif_probe::Probe::SUB_PROPAGATE);
             if borrow == 0 {
                 break;
             }
@@ -208,6 +218,8 @@ fn sub2rev(a: &[BigDigit], b: &mut [BigDigit]) {
     let (b_lo, b_hi) = b.split_at_mut(len);
 
     let borrow = __sub2rev(a_lo, b_lo);
+    #[cfg(num_bigint_verif)]
+    crate::verif_probe::hit(crate::verif_probe::Probe::SUB_REV);
 
     assert!(a_hi.is_empty());
 
@@ -246,6 +258,8 @@ impl Sub<BigUint> for &BigUint {
             let lo_borrow = __sub2rev(&self.data[..other_len], &mut other.data);
             other.data.extend_from_slice(&self.data[other_len..]);
             if lo_borrow != 0 {
+                #[cfg(num_bigint_verif)]
+                crate::verif_probe::hit(crate::verif_probe::Probe::SUB_REFVAL_LO_BORROW);
                 sub2(&mut other.data[other_len..], &[1])
             }
         } else {
